@@ -265,3 +265,24 @@ bool Client::op(const Op &o, size_t opi)
 	}
 	return false;
 }
+
+
+// ------------------------------------------------------------ option objects
+static uint64_t g_optvar = 1;
+void optvar_begin(uint64_t seed) { g_optvar = seed * 0x9e3779b97f4a7c15ULL + 0x1234567; }
+uint64_t optvar_next()
+{
+	g_optvar ^= g_optvar >> 12; g_optvar ^= g_optvar << 25; g_optvar ^= g_optvar >> 27;
+	return (g_optvar * 0x2545F4914F6CDD1DULL) >> 16;
+}
+mtbl_reader_options *make_reader_options(bool verify, bool madvise)
+{
+	mtbl_reader_options *ro = mtbl_reader_options_init();
+	uint64_t how = optvar_next();
+	auto set_v = [&](bool flipflop) { if (flipflop) mtbl_reader_options_set_verify_checksums(ro, !verify); mtbl_reader_options_set_verify_checksums(ro, verify); };
+	auto set_m = [&](bool flipflop) { if (flipflop) mtbl_reader_options_set_madvise_random(ro, !madvise); mtbl_reader_options_set_madvise_random(ro, madvise); };
+	bool skip_default_m = !madvise && (how & 16), skip_default_v = !verify && (how & 32);	// a default left unset
+	if (how & 1) { if (!skip_default_m) set_m(how & 2); if (!skip_default_v) set_v(how & 4); if ((how & 8) && !skip_default_m) set_m(false); }
+	else { if (!skip_default_v) set_v(how & 2); if (!skip_default_m) set_m(how & 4); if ((how & 8) && !skip_default_v) set_v(false); }
+	return ro;
+}
